@@ -400,15 +400,19 @@ def run_specs(specs):
                     fn.unsupported = "method {}.{} not found in the source".format(cname, meth)
                 else:
                     mnode._file = getattr(reg.class_nodes[owner], "_file", item["file"])
-                    pnames = [a.arg for a in mnode.args.args][1:] + ([mnode.args.vararg.arg] if mnode.args.vararg else [])
+                    pnames = [a.arg for a in mnode.args.args][1:] + ([mnode.args.vararg.arg] if mnode.args.vararg else []) \
+                        + [a.arg for a in mnode.args.kwonlyargs]
                     if pnames != [p for p, _ in fn.params]:
                         fn.unsupported = "signature changed: ({}) in the source, ({}) declared".format(
                             ", ".join(pnames), ", ".join(p for p, _ in fn.params))
-                    elif (mnode.args.vararg is not None) != (fn.vararg is not None) or mnode.args.kwonlyargs or mnode.args.kwarg:
+                    elif (mnode.args.vararg is not None) != (fn.vararg is not None) or mnode.args.kwarg:
                         fn.unsupported = "signature form changed"
                     else:
                         ps = [a.arg for a in mnode.args.args][1:]
                         fn.defaults = dict(zip(reversed(ps), reversed(mnode.args.defaults)))
+                        for a, d in zip(mnode.args.kwonlyargs, mnode.args.kw_defaults):
+                            if d is not None:
+                                fn.defaults[a.arg] = d
                         translate_function(reg, fn, mnode, cls=ci, declared_ret=msp.get("ret"))
                 if fn.is_init and fn.unsupported:
                     # the structure must exist: fall back to the declared fields
